@@ -21,6 +21,19 @@ CHECKS = {
             "input and all varints 0..70000 plus every power-of-two neighbourhood are executed on the real Script/varint "
             "code and compared with a strict reference parser/serialiser.",
             "DESIGN.md §4 C19", ""),
+    "C18": ("fault_enumeration", "E4 answers",
+            "exhaustive environment-answer enumeration: every PRF answer of a corner alphabet at every HMAC call of real histories (deviation bound 1, then 2), same substituted function drives implementation and reference",
+            "The HMAC-SHA512 seam is replaced by a chosen-output function; for each of ~190 (thorough) scenarios every distinct "
+            "(key,msg) call x every invalid answer (IL=n, n+1, 2^256-1, child scalar 0 / point at infinity) and valid neighbour is "
+            "executed on the real code and on the reference under the same function; refusal <=> BIP32 declares the child invalid, "
+            "no invalid node may remain in a children list. Reaches the 2^-127 branches no vector can.",
+            "DESIGN.md §4 C18", "IL=0 for non-master calls is not judged (BIP32 does not declare it invalid; back-ends differ)"),
+    "C04": ("exploration", "E1 product",
+            "bounded exhaustive enumeration (every single-bit entropy, every word slot x word value, every illegal length) vs bit-level reference decoder",
+            "Every single-bit and complemented entropy of all five sizes, every 11-bit value in every word slot, every byte length "
+            "0..64 outside the legal set and whitespace-bearing hex are run through the real encoder; sentences are decoded word by "
+            "word through the pinned official list (SHA-256 2f5eed53...) and compared bit for bit.",
+            "DESIGN.md §4 C04", ""),
 }
 
 NOT_YET = "check not built yet in this session (work in progress; see DESIGN.md §9 build order)"
